@@ -445,8 +445,13 @@ impl VersionSet {
 
         // Drop the manifest reader (and therefore the underlying file handle) before attempting to
         // reuse the existing manifest file
+        // A manifest with a torn or corrupted tail cannot be appended to because later readers
+        // would never reach the records written after the damaged region
+        let is_manifest_intact = manifest_reader
+            .was_read_cleanly_to_end()
+            .unwrap_or(false);
         drop(manifest_reader);
-        if self.maybe_reuse_manifest(&manifest_file_path) {
+        if is_manifest_intact && self.maybe_reuse_manifest(&manifest_file_path) {
             return Ok(true);
         }
 
